@@ -125,21 +125,21 @@ func (a Box2) quad0() Box2 {
 func (a Box2) quad1() Box2 {
 	delta := a.Size().MulScalar(0.5)
 	ll := v2.Vec{a.Min.X + delta.X, a.Min.Y}
-	return Box2{ll, ll.Add(delta)}
+	return Box2{ll, v2.Vec{a.Max.X, ll.Y + delta.Y}}
 }
 
 // quad2 returns the 2nd quadtree box of a box (top-left).
 func (a Box2) quad2() Box2 {
 	delta := a.Size().MulScalar(0.5)
 	ll := v2.Vec{a.Min.X, a.Min.Y + delta.Y}
-	return Box2{ll, ll.Add(delta)}
+	return Box2{ll, v2.Vec{ll.X + delta.X, a.Max.Y}}
 }
 
 // quad3 returns the 3rd quadtree box of a box (top-right).
 func (a Box2) quad3() Box2 {
 	delta := a.Size().MulScalar(0.5)
 	ll := a.Min.Add(delta)
-	return Box2{ll, ll.Add(delta)}
+	return Box2{ll, a.Max}
 }
 
 //-----------------------------------------------------------------------------
